@@ -24,6 +24,31 @@
                     that element ("doc")
      ScalarClose    otherwise: |decoded - original| <= 1e-9 |original| (harness, complex doubles; "post"),
                     and the same for a reader of the scalar fields (harness, own arithmetic; "doc")
+   Conversion API with caller-chosen options and documents of OTHER writers (harness option --api, audit #24).  The
+   statement is about quizx's own output; for foreign input it is stretched only to: a text that denotes a rational
+   with denominator <= 256 (a scalar document that denotes a ring element, a diagram document of a shape DecodeWith
+   transcribes) decodes to exactly that, or to an error - never to something else, never by a panic.
+     phase_dec   : JsonPhase::to_phase on a text rendered from a logged SHAPE: ForeignPhase (JsonG!ForeignPhaseOK with the
+                   spec's value of the shape, PhShapeVal; "raw" texts that denote nothing are only counted)
+     phase_enc   : JsonPhase::from_phase(p, caller's PhaseOptions) and to_phase of the result: NoError, PhaseOptions
+                   (JsonG!PhaseOptOK: ignore value <-> "", exact within min(256, limit), own text decodes to what it says)
+     scalar_conv : JsonScalar::from(&s) | from(s) x Scalar4::try_from(&js) | try_from(js): NoError, ScalarExact / ScalarClose
+                   exactly as for a round trip
+     scalar_dec  : hand-written scalar documents incl. phasenodes / is_zero / is_unknown / JsonScalar::unknown():
+                   NoPanic, ForeignScalar (a document that denotes a ring element of the form sqrt2^p e^{i k pi/4}
+                   (JsonG!DecodeScalarExt) decodes to it exactly; otherwise |decoded - value| <= 1e-9 scale, computed by
+                   the harness from the fields with doubles; an error is accepted; is_unknown denotes no value: counted)
+     foreign     : a diagram written by the harness in other writers' shapes (hadamard-typed edges, foreign phase texts,
+                   boolean input/output flags, missing annotations, arbitrary names | parallel edges | virtual nodes joined
+                   to each other), decoded by decode_graph: NoPanic; IsoPost when the document has no parallel edges and no
+                   virtual-virtual edge (and the SPEC's decoding of it is the intended diagram: otherwise the harness's
+                   writer is at fault, drift ForeignWriter); DenPost (parallel edges: against Den(WithParallel(g, extra)),
+                   scalar included - such documents carry no scalar field); ScalarExact (ring element).  decode_err is
+                   accepted and counted.
+   L1 additions: ReaderAgreesWithShape (the harness's independent reader re-reads every rendered text to the shape's
+   value), PhaseOptAsWritten (tilde / pi / limited denominator as from_phase documents them), UnknownIsOne
+   (parallel-edge documents: agreement of the decoded diagram with the transcription's, which depends on the iteration
+   order of a HashMap, is only counted: stats.foreign_par_as_transcribed).
    L1 (drift): the logged document is Encode(g) up to naming: same numbers of wires / nodes / edges,
    same bag of wire records, same bag of node records (types, values with the "" conventions, is_edge,
    coordinates incl. the rounded mean on virtual nodes), same scalar record; connectivity up to naming
@@ -35,7 +60,11 @@ DENMAX == 7
 
 Init == l = 1 /\ presca = FALSE /\ pre = EmptyG /\ prer = EmptyG /\ crd = <<>> /\ dpre = [ok |-> FALSE, t |-> <<>>] /\ viol = <<>> /\ drift = <<>>
         /\ stats = [diagrams |-> 0, roundtrips |-> 0, nontrivial |-> 0, den_checked |-> 0, raw_phase |-> 0, hbox |-> 0,
-                    hedges |-> 0, exact_scalars |-> 0, other_scalars |-> 0, approx_flag_set |-> 0, refine_iso |-> 0, l1same |-> 0]
+                    hedges |-> 0, exact_scalars |-> 0, other_scalars |-> 0, approx_flag_set |-> 0, refine_iso |-> 0, l1same |-> 0,
+                    phase_texts |-> 0, phase_in_scope |-> 0, phase_in_scope_err |-> 0, phase_raw |-> 0, phase_raw_panic |-> 0,
+                    phase_opts |-> 0, phase_opts_exact |-> 0, scalar_convs |-> 0, scalar_docs |-> 0, scalar_docs_ring |-> 0,
+                    scalar_docs_err |-> 0, scalar_unknown |-> 0, foreign_docs |-> 0, foreign_err |-> 0, foreign_iso |-> 0,
+                    foreign_par |-> 0, foreign_par_as_transcribed |-> 0, foreign_hh |-> 0, foreign_den |-> 0]
 
 \* the logged diagram with phases kept as reduced pairs (ZXGraph!FromAbs needs multiples of pi/4)
 FromAbsRaw(j) ==
@@ -70,6 +99,9 @@ IsEncodeUpToNames(doc, want) ==
   /\ SameBag(NoName(doc.wire_vertices), NoName(want.wire_vertices))
   /\ SameBag(NoName(doc.node_vertices), NoName(want.node_vertices))
   /\ doc.scalar = want.scalar
+
+\* the phase of a node in units of pi/4 from a document value that need not be reduced
+PhOf4C(t, v) == IF v = NoVal THEN (IF t = "Hbox" THEN 4 ELSE 0) ELSE PhU(CanonPair(v))
 
 Step(e) ==
   CASE e.k = "reset" ->
@@ -115,6 +147,117 @@ Step(e) ==
                              !.approx_flag_set = @ + (IF exact /\ e.post.sca THEN 1 ELSE 0),
                              !.refine_iso = @ + (IF Cardinality(prer.vs) > 6 THEN 1 ELSE 0),
                              !.l1same = @ + (IF same THEN 1 ELSE 0)]
+              /\ UNCHANGED <<pre, prer, crd, dpre, presca>>
+    [] e.k = "phase_dec" ->
+         LET sh == e.sh
+             judged == sh.kind # "raw"
+             inscope == judged /\ sh.kind # "empty" /\ PhShapeInScope(sh)
+             ok == ~judged \/ ForeignPhaseOK(sh, e.res, e.ret)
+             readerOK == ~judged \/ sh.kind = "empty" \/ ~PhShapeWF(sh)
+                         \/ (e.reader_ok /\ e.reader[2] > 0 /\ CanonPair(e.reader) = CanonPair(PhShapeVal(sh)))
+         IN /\ viol' = IF ok THEN viol ELSE Append(viol, <<l, "ForeignPhase", e.res>>)
+            /\ drift' = IF readerOK THEN drift ELSE Append(drift, <<l, "ReaderAgreesWithShape">>)
+            /\ stats' = [stats EXCEPT !.phase_texts = @ + 1, !.nontrivial = @ + (IF inscope THEN 1 ELSE 0),
+                                      !.phase_in_scope = @ + (IF inscope THEN 1 ELSE 0),
+                                      !.phase_in_scope_err = @ + (IF inscope /\ e.res = "err" THEN 1 ELSE 0),
+                                      !.phase_raw = @ + (IF judged THEN 0 ELSE 1),
+                                      !.phase_raw_panic = @ + (IF ~judged /\ e.res = "panic" THEN 1 ELSE 0)]
+            /\ UNCHANGED <<pre, prer, crd, dpre, presca>>
+    [] e.k = "phase_enc" ->
+         IF e.res # "ok" THEN
+           /\ viol' = Append(viol, <<l, "NoError", "from_phase", e.res>>)
+           /\ stats' = [stats EXCEPT !.phase_opts = @ + 1]
+           /\ UNCHANGED <<pre, prer, crd, dpre, presca, drift>>
+         ELSE
+           LET p == <<e.p[1], e.p[2]>>
+               doc == <<e.doc[1], e.doc[2]>>
+               ok == PhaseOptOK(p, e.opts, doc, e.back_res, e.back)
+               asw == doc = NoVal \/ ~e.doc_ok \/ PhaseOptAsWritten(p, e.opts, doc, e.tilde, e.haspi)
+           IN /\ viol' = IF ok THEN viol ELSE Append(viol, <<l, "PhaseOptions", e.back_res>>)
+              /\ drift' = IF asw THEN drift ELSE Append(drift, <<l, "PhaseOptAsWritten">>)
+              /\ stats' = [stats EXCEPT !.phase_opts = @ + 1, !.nontrivial = @ + 1,
+                                        !.phase_opts_exact = @ + (IF p[2] <= 256 /\ (e.opts.limit = 0 \/ p[2] <= e.opts.limit) THEN 1 ELSE 0)]
+              /\ UNCHANGED <<pre, prer, crd, dpre, presca>>
+    [] e.k = "scalar_conv" ->
+         IF e.res # "ok" THEN
+           /\ viol' = Append(viol, <<l, "NoError", e.enc, e.dec, e.res>>)
+           /\ stats' = [stats EXCEPT !.scalar_convs = @ + 1]
+           /\ UNCHANGED <<pre, prer, crd, dpre, presca, drift>>
+         ELSE
+           LET z == ScFromAbs(e.pre_sc)
+               exact == ExactPhasePow(z)[1]
+               d == e.doc
+               scPost == IF exact THEN e.scalar_exact_kept /\ ~e.sc_big /\ ScFromAbs(e.post_sc) = z /\ ~e.post_sca ELSE e.scalar_close
+               scDoc == IF exact THEN ScalarExactDoc(d) /\ ~d.is_unknown /\ d.phasenodes = <<>> /\ DecodeScalar(d) = z ELSE e.doc_scalar_close
+           IN /\ viol' = IF scPost /\ scDoc THEN viol
+                         ELSE Append(viol, <<l, IF exact THEN "ScalarExact" ELSE "ScalarClose", e.enc, e.dec,
+                                             IF scPost THEN "doc" ELSE IF scDoc THEN "post" ELSE "post+doc">>)
+              /\ stats' = [stats EXCEPT !.scalar_convs = @ + 1, !.nontrivial = @ + 1,
+                                        !.exact_scalars = @ + (IF exact THEN 1 ELSE 0), !.other_scalars = @ + (IF exact THEN 0 ELSE 1)]
+              /\ UNCHANGED <<pre, prer, crd, dpre, presca, drift>>
+    [] e.k = "scalar_dec" ->
+         IF e.res = "unreadable" THEN
+           /\ drift' = Append(drift, <<l, "ForeignScalarUnreadable">>) /\ stats' = [stats EXCEPT !.scalar_docs = @ + 1]
+           /\ UNCHANGED <<pre, prer, crd, dpre, presca, viol>>
+         ELSE
+           LET d == e.doc
+               ring == e.exact_doc /\ ScalarDocExact(d) /\ ~d.is_unknown
+               z == IF ring THEN DecodeScalarExt(d) ELSE RZero
+               exact == ring /\ ExactPhasePow(z)[1]
+               ok == CASE d.is_unknown -> e.res # "panic"
+                       [] e.res = "panic" -> FALSE
+                       [] e.res = "decode_err" -> TRUE
+                       [] e.res = "ok" /\ exact -> ~e.sc_big /\ ScFromAbs(e.post_sc) = z
+                       [] OTHER -> e.close
+           IN /\ viol' = IF ok THEN viol ELSE Append(viol, <<l, IF e.res = "panic" THEN "NoPanic" ELSE "ForeignScalar", e.via, IF exact THEN "exact" ELSE "close">>)
+              /\ drift' = IF d.is_unknown /\ ~(e.res = "ok" /\ ScFromAbs(e.post_sc) = ROne) THEN Append(drift, <<l, "UnknownIsOne">>)
+                          ELSE IF e.unknown_ctor /\ ~d.is_unknown THEN Append(drift, <<l, "UnknownCtor">>) ELSE drift
+              /\ stats' = [stats EXCEPT !.scalar_docs = @ + 1, !.nontrivial = @ + (IF e.res = "ok" THEN 1 ELSE 0),
+                                        !.scalar_docs_ring = @ + (IF exact THEN 1 ELSE 0),
+                                        !.scalar_docs_err = @ + (IF e.res = "decode_err" THEN 1 ELSE 0),
+                                        !.scalar_unknown = @ + (IF d.is_unknown THEN 1 ELSE 0)]
+              /\ UNCHANGED <<pre, prer, crd, dpre, presca>>
+    [] e.k = "foreign" ->
+         IF e.res \in {"panic", "unreadable"} THEN
+           /\ viol' = Append(viol, <<l, IF e.res = "panic" THEN "NoPanic" ELSE "ForeignUnreadable", e.via, e.be>>)
+           /\ stats' = [stats EXCEPT !.foreign_docs = @ + 1]
+           /\ UNCHANGED <<pre, prer, crd, dpre, presca, drift>>
+         ELSE IF e.res # "ok" THEN      \* an error is an admissible answer to a document of another writer
+           /\ stats' = [stats EXCEPT !.foreign_docs = @ + 1, !.foreign_err = @ + 1]
+           /\ UNCHANGED <<pre, prer, crd, dpre, presca, viol, drift>>
+         ELSE
+           LET post == FromAbsRaw(e.post)
+               cpost == CrdOf(e.post)
+               doc == DocOf(e.doc)
+               par == [i \in 1..Len(e.par) |-> <<e.par[i][1], e.par[i][2], e.par[i][3]>>]
+               struct == par = <<>> /\ ~e.hh
+               dec == DecodeWith(doc, PhOfRaw)
+               means == struct /\ DocSimple(doc) /\ ~dec.panic /\ ~dec.unsupported /\ IsoAnchoredC(dec.g, dec.cg, prer, crd)
+               isoPost == ~means \/ IsoAnchoredC(post, cpost, prer, crd)
+               denotable == dpre.ok /\ Denotable(e.post) /\ Cardinality({v \in prer.vs : prer.ty[v] # "B"}) + Len(par) <= DENMAX
+               denOK == IF ~denotable THEN TRUE
+                        ELSE IF par = <<>> THEN Den(Unit(FromAbs(e.post))) = dpre.t
+                        ELSE ~e.sc_big /\ Den(FromAbs(e.post)) = Den(WithParallel(pre, par))
+               scPost == par # <<>> \/ (e.scalar_exact_kept /\ ~e.sc_big /\ ScFromAbs(e.post.sc) = prer.sc)
+               \* parallel edges make the transcription add pi to phases: it needs them in units of pi/4
+               pi4doc == \A i \in 1..Len(doc.node_vertices) :
+                           LET v == doc.node_vertices[i].value IN v = NoVal \/ (v[2] > 0 /\ PhOK(CanonPair(v)))
+               refines == \/ par = <<>> \/ ~pi4doc \/ ~AbsOK(e.post)
+                          \/ LET d4 == DecodeWith(doc, PhOf4C)
+                                 p4 == FromAbs(e.post)
+                             IN d4.panic \/ d4.unsupported \/ (IsoAnchoredC(p4, cpost, d4.g, d4.cg) /\ p4.sc = d4.g.sc)
+               bad(ok, name) == IF ok THEN <<>> ELSE <<<<l, name, e.via, e.be>>>>
+           IN /\ viol' = bad(isoPost, "IsoPost") \o bad(denOK, "DenPost") \o bad(scPost, "ScalarExact") \o viol
+              \* (which endpoint of a fused pair receives a pi depends on the iteration order of the code's HashMap of
+              \* edges: agreement of a parallel-edge document with the transcription's order is only counted)
+              /\ drift' = (IF struct /\ ~means THEN <<<<l, "ForeignWriter">>>> ELSE <<>>) \o drift
+              /\ stats' = [stats EXCEPT !.foreign_docs = @ + 1, !.nontrivial = @ + (IF prer.vs # {} THEN 1 ELSE 0),
+                                        !.foreign_iso = @ + (IF means THEN 1 ELSE 0),
+                                        !.foreign_par = @ + (IF par # <<>> THEN 1 ELSE 0),
+                                        !.foreign_par_as_transcribed = @ + (IF par # <<>> /\ refines THEN 1 ELSE 0),
+                                        !.foreign_hh = @ + (IF e.hh THEN 1 ELSE 0),
+                                        !.foreign_den = @ + (IF denotable THEN 1 ELSE 0),
+                                        !.approx_flag_set = @ + (IF e.post.sca THEN 1 ELSE 0)]
               /\ UNCHANGED <<pre, prer, crd, dpre, presca>>
 Next == \/ /\ l <= NLines /\ Step(Rec[l]) /\ l' = l + 1
         \/ /\ l = NLines + 1 /\ Report(l, viol, drift, stats) /\ l' = l + 1 /\ UNCHANGED <<pre, prer, crd, dpre, presca, viol, drift, stats>>
